@@ -154,7 +154,8 @@ def sh(cmd, timeout, cwd=None, env=None):
     return 124, (out or '') + '\n[timeout after %ss]' % timeout
 
 
-GEN_TARGETS = {'kernels': 'Gen/Kernels.v', 'validators': 'Gen/Validators.v', 'signatures': 'Gen/Signatures.v', 'classes': 'Gen/Classes.v'}
+GEN_TARGETS = {'kernels': 'Gen/Kernels.v', 'validators': 'Gen/Validators.v', 'signatures': 'Gen/Signatures.v', 'classes': 'Gen/Classes.v',
+               'projection': 'Gen/Projection.v'}
 
 
 SNAPSHOTS = os.path.join(VERIF, 'translator', 'snapshots')
@@ -508,13 +509,14 @@ def run_property(mod, tier, seed, replay=None):
   for g in getattr(mod, 'GEN', []):
     obligations.append('translator:%s' % g)
 
-  if 'classes' in getattr(mod, 'GEN', []):
-    try:
-      txt = open(os.path.join(COQ, GEN_TARGETS['classes'])).read()
-      notes['classes_regenerated_from_source'] = re.findall(r'^\(\* \S+: (\S+) \*\)$', txt, re.M)
-      notes['classes_fallback_to_hand_model'] = re.findall(r'^\(\* \S+: (\S+) NOT TRANSLATED \((.*?)\):', txt, re.M)
-    except Exception:
-      pass
+  for g in ('classes', 'projection'):
+    if g in getattr(mod, 'GEN', []):
+      try:
+        txt = open(os.path.join(COQ, GEN_TARGETS[g])).read()
+        notes['%s_regenerated_from_source' % g] = re.findall(r'^\(\* \S+: (\S+) \*\)$', txt, re.M)
+        notes['%s_fallback_to_hand_model' % g] = re.findall(r'^\(\* \S+: (\S+) NOT TRANSLATED \((.*?)\):', txt, re.M)
+      except Exception:
+        pass
   # 2. build + assumptions
   thms = theorems_of(mod.PROPS) if os.path.exists(os.path.join(COQ, mod.PROPS)) else []
   obligations += ['theorem:%s' % t for t in thms]
